@@ -52,6 +52,9 @@ func (g *FuncGen) heapGet(h *Heap, name, srt string) string {
 		g.heapSorts[name] = srt
 		// heap closure: every reference stored in the entry heap was allocated before entry
 		if g.alloc0 != "" {
+			g.closure(name, t, g.alloc0)
+		}
+		if false {
 			switch g.mapRefKind[name] {
 			case "ref":
 				g.assert(fmt.Sprintf("(forall ((r Int)) (! (and (<= 0 (select %s r)) (< (select %s r) %s)) :pattern ((select %s r))))", t, t, g.alloc0, t))
@@ -75,8 +78,11 @@ func (g *FuncGen) heapGet(h *Heap, name, srt string) string {
 			t = g.declare(fmt.Sprintf("H%d:%s", h.id, name), srt)
 			if name == "$alloc" {
 				g.assert(fmt.Sprintf("(>= %s %s)", t, g.heapGet(h.parent, name, srt)))
-			} else if !h.noFrame {
-				g.frameAxiom(h, name, srt, t)
+			} else {
+				if !h.noFrame {
+					g.frameAxiom(h, name, srt, t)
+				}
+				g.closure(name, t, g.heapGet(h, "$alloc", "Int"))
 			}
 		} else {
 			t = g.heapGet(h.parent, name, srt)
@@ -89,6 +95,7 @@ func (g *FuncGen) heapGet(h *Heap, name, srt string) string {
 				g.assert(fmt.Sprintf("(>= %s %s)", t, g.mergeGet(h, name, srt)))
 			} else {
 				g.frameAxiom(h, name, srt, t)
+				g.closure(name, t, g.heapGet(h, "$alloc", "Int"))
 			}
 		} else {
 			t = g.mergeGet(h, name, srt)
@@ -98,6 +105,20 @@ func (g *FuncGen) heapGet(h *Heap, name, srt string) string {
 	}
 	h.memo[name] = t
 	return t
+}
+
+// closure: every reference stored in heap map t is below the allocation counter `alloc` of that heap.
+func (g *FuncGen) closure(name, t, alloc string) {
+	switch g.mapRefKind[name] {
+	case "ref":
+		g.assert(fmt.Sprintf("(forall ((r Int)) (! (and (<= 0 (select %s r)) (< (select %s r) %s)) :pattern ((select %s r))))", t, t, alloc, t))
+	case "slice":
+		g.assert(fmt.Sprintf("(forall ((r Int)) (! (and (wf_slice (select %s r)) (< (s_arr (select %s r)) %s)) :pattern ((select %s r))))", t, t, alloc, t))
+	case "elemref":
+		g.assert(fmt.Sprintf("(forall ((a Int) (i Int)) (! (and (<= 0 (select (select %s a) i)) (< (select (select %s a) i) %s)) :pattern ((select (select %s a) i))))", t, t, alloc, t))
+	case "elemslice":
+		g.assert(fmt.Sprintf("(forall ((a Int) (i Int)) (! (and (wf_slice (select (select %s a) i)) (< (s_arr (select (select %s a) i)) %s)) :pattern ((select (select %s a) i))))", t, t, alloc, t))
+	}
 }
 
 func (g *FuncGen) mergeGet(h *Heap, name, srt string) string {
